@@ -685,7 +685,12 @@ impl<'a> Model<'a> {
     }
 
     fn extract(&mut self, fd: &FieldDesc, it: &Item) -> M<Conv> {
-        let mut r: Conv = if fd.with { self.seam_item(it)?.map(Val::Tok) } else { self.conv(&fd.ty, it)? };
+        let mut r: Conv = if fd.with {
+            let wraps_option = matches!(fd.ty, Ty::Opt(_));
+            self.seam_item(it)?.map(|t| if wraps_option { Val::Some(Box::new(Val::Tok(t))) } else { Val::Tok(t) })
+        } else {
+            self.conv(&fd.ty, it)?
+        };
         if let Ok(v) = &r {
             let item_of = |v: &Val| match v {
                 Val::Tok(t) => Some(t.clone()),
